@@ -41,10 +41,14 @@ Proof.
   destruct (N.eqb c slash); [intros [H|H]; [discriminate|]|intros H]; apply pieces_normal in H; rewrite Forall_forall in F; exact (F x H).
 Qed.
 
-Theorem name_accepted_iff c : name_accepted c = true <-> single_component c = true.
+Theorem name_accepted_iff c : name_accepted c = true <-> single_component c = true /\ c <> result_file_name.
 Proof.
   unfold name_accepted, single_component. split.
-  - destruct (components c) as [|[| | |x] [|? ?]] eqn:E; try discriminate. intros Hx. apply str_eqb_eq in Hx. subst x.
+  - destruct (components c) as [|[| | |x] [|? ?]] eqn:E; try discriminate. intros Hx. apply andb_true_iff in Hx as [Hx Hr].
+    apply str_eqb_eq in Hx. subst x.
+    assert (Hres : c <> result_file_name).
+    { intro Ec. apply negb_true_iff in Hr. rewrite (proj2 (str_eqb_eq c result_file_name) Ec) in Hr. discriminate. }
+    split; [|exact Hres].
     assert (Hns : noslash c) by (apply (components_normal_noslash c c); rewrite E; left; reflexivity).
     destruct c as [|a c]; [discriminate|].
     unfold components in E. assert (Ha : N.eqb a slash = false) by (apply N.eqb_neq; intro; subst; apply Hns; left; reflexivity).
@@ -52,17 +56,21 @@ Proof.
     rewrite (proj2 (noslash_existsb (a :: c)) Hns).
     destruct (str_eqb (a :: c) [dot]) eqn:Ed; [destruct (str_eqb (a :: c) [dot; dot]); discriminate|].
     destruct (str_eqb (a :: c) [dot; dot]) eqn:Edd; [discriminate|]. reflexivity.
-  - rewrite !andb_true_iff, !negb_true_iff. intros [[[Hne Hs] Hd] Hdd].
+  - intros [H Hres]. revert H. rewrite !andb_true_iff, !negb_true_iff. intros [[[Hne Hs] Hd] Hdd].
     destruct c as [|a c]; [discriminate|]. apply noslash_existsb in Hs.
     assert (Ha : N.eqb a slash = false) by (apply N.eqb_neq; intro; subst; apply Hs; left; reflexivity).
     unfold components. rewrite Ha, comps_noslash by exact Hs. cbn [pieces_comps piece_comp]. rewrite Hd, Hdd. cbn [app].
-    apply (proj2 (str_eqb_eq (a :: c) (a :: c))). reflexivity.
+    apply andb_true_iff. split; [apply (proj2 (str_eqb_eq (a :: c) (a :: c))); reflexivity|].
+    apply negb_true_iff. destruct (str_eqb (a :: c) result_file_name) eqn:Er; [|reflexivity].
+    apply str_eqb_eq in Er. contradiction.
 Qed.
 
 Lemma components_single c : single_component c = true -> components c = [Normal c].
 Proof.
-  intros H. apply name_accepted_iff in H. unfold name_accepted in H.
-  destruct (components c) as [|[| | |x] [|? ?]]; try discriminate. apply str_eqb_eq in H. subst. reflexivity.
+  intros H. unfold single_component in H. revert H. rewrite !andb_true_iff, !negb_true_iff. intros [[[Hne Hs] Hd] Hdd].
+  destruct c as [|a c]; [discriminate|]. apply noslash_existsb in Hs.
+  assert (Ha : N.eqb a slash = false) by (apply N.eqb_neq; intro; subst; apply Hs; left; reflexivity).
+  unfold components. rewrite Ha, comps_noslash by exact Hs. cbn [pieces_comps piece_comp]. rewrite Hd, Hdd. reflexivity.
 Qed.
 
 (* the log directory of an accepted command name lies in the run's own slot, exactly two levels down *)
@@ -82,4 +90,11 @@ Theorem log_dir_injective runs s1 c1 h1 s2 c2 h2 :
 Proof.
   intros A1 A2 A3 B1 B2 B3 E. rewrite !log_dir_in_slot in E by assumption.
   apply app_inv_head in E. inversion E. auto.
+Qed.
+
+(* the directory of an accepted command never takes the place of the slot's result file *)
+Theorem command_dir_not_result_file runs slot command :
+  name_accepted command = true -> runs ++ [slot; command] <> runs ++ [slot; result_file_name].
+Proof.
+  intros Ha E. apply name_accepted_iff in Ha as [_ Hne]. apply app_inv_head in E. inversion E. contradiction.
 Qed.
